@@ -25,6 +25,9 @@ impl Pay {
     pub fn to_json(&self) -> Json {
         match self {
             Pay::Missing => Json::Null,
+            // JSON has no spelling for the non-finite values
+            Pay::Num(x) if x.is_nan() => json!({"nonfinite": "nan"}),
+            Pay::Num(x) if x.is_infinite() => json!({"nonfinite": if *x > 0.0 { "inf" } else { "-inf" }}),
             Pay::Num(x) => json!(x),
             Pay::Int(i) => json!(i),
             Pay::Str(s) => json!(s),
@@ -44,6 +47,12 @@ impl Pay {
                     Pay::Num(n.as_f64().unwrap_or(0.0))
                 }
             }
+            Json::Object(o) => match o.get("nonfinite").and_then(|v| v.as_str()) {
+                Some("nan") => Pay::Num(f64::NAN),
+                Some("inf") => Pay::Num(f64::INFINITY),
+                Some("-inf") => Pay::Num(f64::NEG_INFINITY),
+                _ => Pay::Missing,
+            },
             _ => Pay::Missing,
         }
     }
@@ -358,10 +367,26 @@ const NUMS: [f64; 15] = [
 const INTS: [i64; 9] = [0, 1, -1, 2, 5, -5, 12, 1000, -1000];
 const STRS: [&str; 4] = ["x", "", "12", "NaN"];
 
-/// payload style of a whole case: 0 = mixed, 1 = all numeric, 2 = mostly missing/non-numeric
+/// payload style of a whole case: 0 = mixed, 1 = all numeric, 2 = mostly missing/non-numeric,
+/// 3 = numeric with readings that are not finite numbers (NaN, +-infinity)
 pub fn rand_pay(rng: &mut Rng, style: usize) -> Pay {
     let r = rng.below(100);
     match style {
+        3 => {
+            if r < 25 {
+                Pay::Num(f64::NAN)
+            } else if r < 32 {
+                Pay::Num(f64::INFINITY)
+            } else if r < 39 {
+                Pay::Num(f64::NEG_INFINITY)
+            } else if r < 80 {
+                Pay::Num(*rng.pick(&NUMS))
+            } else if r < 92 {
+                Pay::Int(*rng.pick(&INTS))
+            } else {
+                Pay::Missing
+            }
+        }
         1 => {
             if r < 70 {
                 Pay::Num(*rng.pick(&NUMS))
@@ -453,8 +478,10 @@ pub fn rand_timestamps(rng: &mut Rng, d: u64, n: usize) -> Vec<u64> {
 }
 
 pub fn rand_events(rng: &mut Rng, d: u64) -> Vec<Ev> {
-    let n = 1 + rng.below(12);
-    let style = *rng.pick(&[0usize, 0, 0, 1, 2]);
+    // one case in 8 is long (more events than a small-slice code path of a sort or a container
+    // would see), so that several windows each hold more events than the cap
+    let n = if rng.chance(1, 8) { 21 + rng.below(44) } else { 1 + rng.below(12) };
+    let style = *rng.pick(&[0usize, 0, 0, 0, 1, 1, 2, 2, 3]);
     rand_timestamps(rng, d, n)
         .into_iter()
         .map(|ts| Ev { ts, pay: rand_pay(rng, style) })
@@ -532,7 +559,7 @@ pub fn rand_node_case(rng: &mut Rng) -> Case {
     let base = if rng.chance(17, 20) { EPOCH + rng.below(30) as u64 } else { 0 };
     let clock0 = d + 2 + rng.below(11) as u64;
     let n = 1 + rng.below(12);
-    let style = *rng.pick(&[0usize, 0, 1, 2]);
+    let style = *rng.pick(&[0usize, 0, 0, 1, 1, 2, 2, 3]);
     let mut now = clock0;
     let mut ops = Vec::new();
     for _ in 0..n {
